@@ -67,7 +67,7 @@ def run(chk, prog):
     scope = [k for k, f in prog.fns.items() if f.crate == "redproxy_rs" and f.file.endswith("common/fragment.rs")]
     n = panics.evaluate_scope(chk, prog, scope, rule="P")
     chk.floor("P", n, 20, "panic edges in common/fragment.rs")
-    for a in ("fragment_header_guard", "mtu_guard"):
+    for a in ("fragment_header_guard", "mtu_guard", "fragment_count_ceil", "make_fragments_next_shape", "fragment_bitmap_guard"):
         ok, d = anchors.check(prog, a)
         chk.instance("guards", "src/common/fragment.rs", "anchor %s" % a, ok, d)
         if not ok:
